@@ -20,3 +20,10 @@ Print Assumptions C06_to_regex_model.
 Theorem C06_round_trip_model : forall (Q : Type) (E : EqDec Q) (A : enfa Q), wf A -> forall w, Lang (re_fa (to_regex A)) w <-> Lang A w.
 Proof. intros Q E A W w. rewrite (re_fa_lang (to_regex A) w). symmetry. exact (@to_regex_correct Q E A W w). Qed.
 Print Assumptions C06_round_trip_model.
+
+(* ... and with pyformlang's own construction of the automaton of an expression (Model/Thompson.v) *)
+From PFL Require Import Model.Thompson Proofs.Rational.
+Theorem C06_round_trip_code_path : forall (Q : Type) (E : EqDec Q) (c : nat) (A : enfa Q) (w : list N),
+  wf A -> (Lang (re_enfa_at c (to_regex A)) w <-> Lang A w).
+Proof. exact (@to_regex_round_trip). Qed.
+Print Assumptions C06_round_trip_code_path.
